@@ -48,7 +48,8 @@ def block(draw, depth, max_len=6):
         k = draw(st.sampled_from(kinds))
         if k == "leaf":
             out.append({"k": "leaf", "rg": draw(st.booleans()),
-                        "dtype": draw(st.sampled_from(["float32", "float64", "float32", "int32"]))})
+                        "dtype": draw(st.sampled_from(["float32", "float64", "float32", "int32", "float16", "complex64", "bool",
+                                                       "uint8", "int64", "complex128"]))})
         elif k == "op":
             out.append({"k": "op", "op": draw(st.sampled_from(OPS)), "a": draw(IDX), "b": draw(IDX),
                         "c": draw(IDX)})
@@ -204,7 +205,8 @@ class Interp:
     def do_leaf(self, s):
         dt = np.dtype(s["dtype"])
         data = np.array([[1.5, -2.0], [0.5, 1.0]]).astype(dt)
-        is_float = dt.kind == "f"
+        self.rec.tag("dtype_" + dt.name)
+        is_float = dt.kind == "f"          # float16/32/64 only: complex, bool and integers can never require grad
         want_rg = s["rg"] and self.grad_on
         self.trace.append(f"leaf rg={s['rg']} {s['dtype']}")
         try:
@@ -237,7 +239,14 @@ class Interp:
         if op in ("add", "mul"):
             if tb.shape != ta.shape and tb.ndim != 0 and ta.ndim != 0:
                 tb, b, ib = ta, a, ia
-            r = ta + tb if op == "add" else ta * tb
+            try:
+                r = ta + tb if op == "add" else ta * tb
+            except RuntimeError:
+                # float (requiring grad) combined with a complex operand gives a complex result, which the library
+                # refuses to track: a rejected forward, nothing to assert
+                if not b["float"]:
+                    return
+                raise
             parents = [ia, ib]
         elif op == "tanh":
             r = sg.tanh(ta)
